@@ -169,6 +169,27 @@ PROPS = {
             rapid("ranges", "TestC09Ranges", 5000, 50000),
         ],
     ),
+    "C10": dict(
+        technique="schedule-owning PBT under the race detector: the harness holds every command's completion (channels it fills, gates it opens) and checks the poll/resume state machine against the stated protocol; exhaustive shape x schedule x result matrix; lower-bound timing check for <<wait>>",
+        level_text="Scripts with 1-5 commands between marker lines and probe-calling set statements; handlers of every supported shape (raw AddCommand channel, converted "
+                   "func(...) chan error, func(...) <-chan error, func(...), func(...) error); per command a schedule: complete on return, or after p in 1..4 waiting "
+                   "polls, with nil or an error. While a command is incomplete every Next must return ErrWaitingForCommandCompletion (errors.Is) within 10 s although "
+                   "the handler is provably still blocked, without handler invocation, function call or storer write; after completion was reported the next Next "
+                   "resumes (bounded polling only for the goroutine shapes, whose delivery is asynchronous); an error is returned by exactly one call; the statement "
+                   "after the command runs exactly once and its marker is the next element; every command statement invoked its handler exactly once with its "
+                   "arguments. The whole binary runs under -race: any report is a violation. <<wait n>>: completion no earlier than n after the starting call. Search, not proof.",
+        level_note="The harness owns the completion schedule, not the goroutine scheduler: for the two goroutine shapes the moment at which the bridge's goroutine delivers "
+                   "the result is not controlled (polling is bounded at 5000 polls). Time is only used as a lower bound (wait) or as a 10 s liveness limit in a situation "
+                   "made deterministic. When a channel is already filled on return, the starting Next may either go on or report waiting once (statement silent).",
+        rule="1-5 commands x shape x polls in {0,1,2,3,4} x nil/error; non-trivial = at least one command pending for at least one poll; wait: a wait that was observed pending; "
+             "distinct = distinct serialised cases.",
+        assumptions=["race detector reports are attributed to the property whichever goroutines are involved"],
+        subs=[
+            rapid("pending", "TestC10Pending", 200, 3000, race=True),
+            enum("schedule-matrix", "TestC10ScheduleMatrix", race=True),
+            rapid("wait", "TestC10Wait", 8, 30, race=True, shards=dict(quick=1, thorough=4)),
+        ],
+    ),
     "C11": dict(
         technique="model-based PBT over jump histories: reference visit counter vs rendered visited()/visited_count() and Snapshot().VisitedNodes at every step; bounded all-paths enumeration",
         level_text="Jump-heavy generated scripts (2-5 nodes, self-loops and cycles, jumps by name and by expression out of nested option/if bodies, failing jumps "
